@@ -57,6 +57,10 @@ def run(ctx):
     RK.sibling_agreement(ctx, "R05.d", "R05.d", stages_too=False, only=("query",))
     from . import C20 as RC20
     RC20.buffer_rules(ctx, "R20.c", None, None)
+    # the drawn span is the matched stretch of the word: [word.slice.0 + subslice.0, word.slice.0 + subslice.1) of the word the
+    # match belongs to (otherwise the highlight is longer than / elsewhere than what was typed)
+    from . import r_highlight as RH
+    RH.span_arithmetic(ctx, "R05.e")
     return info("R20.c: the search runner clears the result buffer on every path. R05.b: hits can only come from index candidates = enumerate positions whose freshly reset counter is > 0, counted "
                 "over the shared gram generator; R05.c: records without a word match are filtered out; R05.d: NotAlphaNum / split "
                 "classes are the std predicates, so a query with a letter or digit has a word. R05.a: the |qslice - rslice| gate on the path to WordMatch::new_pair is located by data-flow "
